@@ -43,8 +43,11 @@ Visible(env) ==
 \* down: the operand type of the operator, the parameter type of the function, string inside a template, the type of the
 \* whole expression inside parentheses and in the branches of a conditional (since the repair of the conditional branches,
 \* DESIGN 8); as far as this module assumes, any type in the parts of a `for` expression).
-Forms == {"plain", "tmpl", "binr", "condt", "condf", "arg", "paren", "forcoll", "forbody"}
-ExpType(c, form) == CASE form = "tmpl" -> "string" [] form = "binr" -> "number" [] form = "arg" -> "string"
+\* "cmpr" / "cmpl": right / left operand of a comparison (operands are numbers, the result is a bool); "eqr": right operand of
+\* an equality (operands of any type, the result is a bool) - the expected type is the operand's, never the result's.
+Forms == {"plain", "tmpl", "binr", "cmpr", "cmpl", "eqr", "condt", "condf", "arg", "paren", "forcoll", "forbody"}
+ExpType(c, form) == CASE form = "tmpl" -> "string" [] form \in {"binr", "cmpr", "cmpl"} -> "number" [] form = "arg" -> "string"
+                      [] form = "eqr" -> "dynamic"
                       [] form \in {"forcoll", "forbody"} -> "dynamic" [] OTHER -> c.t
 ConsAt(c, form) == IF form = "plain" THEN c ELSE [k |-> "any", t |-> ExpType(c, form)]
 
